@@ -539,7 +539,7 @@ Proof.
   intros Hg Hr HM0 HMs. unfold run_sys, history. cbn [fold_left].
   assert (H0 : Z.of_nat (length (fst (sys_step init (Genesis g M0)))) <= M0).
   { unfold sys_step. cbn [step fst]. now apply (size_recorded [] g M0). }
-  revert H0. generalize (sys_step init (Genesis g M0)). generalize M0 at 2 3.
+  revert H0. generalize (sys_step init (Genesis g M0)). generalize M0.
   induction rest as [|o t IH]; intros m x Hx; [exact Hx|].
   inversion Hr as [|? ? Ho Ht]; subst. inversion HMs as [|? ? Hm Hmt]; subst.
   unfold last_M in *. cbn [fold_left]. apply IH; try assumption.
